@@ -266,6 +266,7 @@ type c07Knobs struct {
 	multiple           int  // >0: sources are base * multiple (normalisation exact)
 	periodMismatch     bool
 	maxSamples, maxCol int
+	minSamples         int // e2e streams: every profile has at least this many samples
 }
 
 var c07Funcs = []string{"main", "a", "b", "c", "d", "runtime.mallocgc"}
@@ -408,7 +409,7 @@ func c07Gen(r *Rng, k c07Knobs) *c07Tuple {
 		p.period = int64(r.Intn(50))
 		p.duration = int64(r.Intn(1000))
 		p.timeNanos = int64(r.Intn(1000))
-		ns := r.Intn(k.maxSamples + 1)
+		ns := k.minSamples + r.Intn(k.maxSamples+1-k.minSamples)
 		for i := 0; i < ns; i++ {
 			s := c07Sample{locs: stacks[r.Intn(nst)]}
 			for range p.types {
@@ -540,6 +541,9 @@ func runC07(c *Ctx) {
 			k.nsrc = 1 + r.Intn(3)
 		}},
 		{"extreme-values", 60, 1000, func(k *c07Knobs, r *Rng) { k.big = 1 + r.Intn(2); k.nsrc = 2 + r.Intn(2) }},
+	}
+	if os.Getenv("VERIF_ONLY") != "units" {
+		runC07E2E(c, func(gen string, in, obs Term, nt bool, tags ...string) { c.Case(gen, in, obs, nt, tags...) })
 	}
 	for _, st := range streams {
 		// VERIF_ONLY=units: C15 reuses the unit-harmonising streams for its "harmonising the units of
